@@ -124,8 +124,24 @@ func ruleRoleMirror(c *Ctx, r *Report) {
 		for _, b := range fn.Blocks {
 			for _, in := range b.Instrs {
 				call, ok := in.(*ssa.Call)
-				if !ok || !strings.HasSuffix(calleeName(&call.Call), "Cache).Pull") {
+				if !ok {
 					continue
+				}
+				if name := calleeName(&call.Call); !strings.HasSuffix(name, "Cache).Pull") {
+					// or the merging variant, which hands its rules to Pull as they are
+					pm := call.Call.StaticCallee()
+					if !strings.HasSuffix(name, "Cache).PullAndMerge") || pm == nil || len(pm.Params) == 0 {
+						continue
+					}
+					through := false
+					for _, inner := range findCalls(pm, nameHasSuffix("Cache).Pull")) {
+						if inner.Call.Args[len(inner.Call.Args)-1] == ssa.Value(pm.Params[len(pm.Params)-1]) {
+							through = true
+						}
+					}
+					if !through {
+						continue
+					}
 				}
 				if rl, ok := c.ruleList(call.Call.Args[len(call.Call.Args)-1], 0); ok {
 					found = true
@@ -180,8 +196,12 @@ func ruleCommitDiscipline(c *Ctx, r *Report) {
 				as = append(as,
 					atomAssume{func(v ssa.Value) bool {
 						bo, ok := v.(*ssa.BinOp)
-						return ok && (bo.X == next || bo.Y == next) && bo.Op.String() == "!="
+						return ok && (cellValue(bo.X) == next || cellValue(bo.Y) == next) && bo.Op.String() == "!="
 					}, vBool(true)},
+					atomAssume{func(v ssa.Value) bool {
+						bo, ok := v.(*ssa.BinOp)
+						return ok && (cellValue(bo.X) == next || cellValue(bo.Y) == next) && bo.Op.String() == "=="
+					}, vBool(false)},
 					atomAssume{mValue(errV), vNil(true)}, atomAssume{mValue(alV), vNil(true)})
 			}
 			// this invocation processes the ServerHello (client parser)
